@@ -52,11 +52,11 @@ class Contract:
 
     @property
     def qualname(self):
-        return self.target.split(':', 1)[1]
+        return self.target.split(':', 1)[-1]
 
     @property
     def module(self):
-        return self.target.split(':', 1)[0]
+        return self.target.split(':', 1)[0] if ':' in self.target else 'external'
 
 
 class SpecFun:
